@@ -88,6 +88,17 @@ def c15():
         except Exception as e:
             ok, d = False, repr(e)
         out.append(('D6/D7/D15', dict(string=s), ok, d))
+    for big in (2 ** 40 + 3, -(2 ** 40 + 3), 2 ** 51 - 5):                   # D26: neighbouring fractions keep their order
+        for steps in range(6):
+            f0 = 0.4999999
+            for _ in range(steps):
+                f0 = math.nextafter(f0, math.inf)
+            fs = [math.nextafter(f0, math.inf), f0]
+            p = Phase(np.array([float(big), float(big)]), np.array(fs))
+            o = [int(i) for i in p.argsort()]
+            q = p.sort()
+            ok = o == [1, 0] and float(q['frac'].value[0]) == fs[1] and float(q['frac'].value[1]) == fs[0]
+            out.append(('D26', dict(count=big, fractions=[f.hex() for f in fs]), ok, f'argsort {o}'))
     for p, prec, want in ((Phase(3.2), 1, '3.2'), (Phase(3.2), 0, '3'), (Phase(-217, 0), 0, '-217'), (Phase(-217, 0), 1, '-217.0')):     # D8 D8b
         try:
             r = p.to_string(precision=prec)
